@@ -1960,3 +1960,154 @@ Proof.
   destruct (exec _ tail) as [[u tr2] ok2]. cbv beta iota zeta in H. unfold fin in H.
   apply triple_eq in H. destruct H as (<- & <- & <-). exists tr2. split; auto. destruct ok2; discriminate.
 Qed.
+
+(* ---------------------------------------------------------------------- *)
+(* on-disk state machines: node.recover is restartable at every crash cut *)
+
+Lemma recover_tail_order : forall tr, recover_tail tr = DSmSync :: map DBase tr.
+Proof. intros. unfold recover_tail. vm_compute (recover_pos_sync <? recover_pos_shrink). reflexivity. Qed.
+
+(* every snapshot file of index i, in either view, holds the full image *)
+Definition FullAt (i : N) (s : state) : Prop :=
+  Forall (fun o => d_dn o = Some (DFinal i) ->
+            Forall (fun f => f_dn f = Some (FSnap i) -> is_shrunk (f_dd f) = false) (d_files o)) (st_fs s).
+
+Lemma drun_app : forall a s b, drun s (a ++ b) = drun (drun s a) b.
+Proof. intros. unfold drun. apply fold_left_app. Qed.
+
+Lemma drun_base : forall tr s,
+  ~ In OCrash tr ->
+  drun s (map DBase tr) = mkDS (run (ds_st s) tr) (ds_smv s) (ds_smd s).
+Proof.
+  induction tr as [|o r IH]; intros [st v d] NC.
+  - reflexivity.
+  - cbn [map]. unfold drun in *. cbn [fold_left]. rewrite IH.
+    + destruct o; simpl; try reflexivity. exfalso. apply NC. left. reflexivity.
+    + intro X. apply NC. right. exact X.
+Qed.
+
+(* reading the recorded snapshot file after a crash *)
+Lemma read_after_crash : forall s i,
+  Good s -> st_rec s = i -> i <> 0 ->
+  exists d, read_file (DFinal i) (FSnap i) (fs_crash (st_fs s)) = Some d /\ valid_snap d = true /\
+            (FullAt i s -> is_shrunk d = false).
+Proof.
+  intros [l r] i [[HI HR] _] RE NZ. simpl in *. subst r.
+  set (cands := flat_map (fun o => if d_is (d_vn o) (DFinal i)
+                  then flat_map (fun x => if f_is (f_vn x) (FSnap i) then [f_vd x] else []) (d_files o)
+                  else []) (fs_crash l)).
+  assert (ALL : Forall (fun d => valid_snap d = true /\ (FullAt i (mkS l i) -> is_shrunk d = false)) cands).
+  { rewrite Forall_forall. intros v Hv. unfold cands in Hv. apply in_flat_map in Hv. destruct Hv as [o' [Ho' Hv]].
+    unfold fs_crash in Ho'. apply in_map_iff in Ho'. destruct Ho' as [o [<- Ho]]. apply filter_In in Ho. destruct Ho as [Ho _].
+    simpl in Hv. destruct (d_is (d_dn o) (DFinal i)) eqn:E; [|contradiction]. apply d_is_eq in E.
+    apply in_flat_map in Hv. destruct Hv as [f' [Hf' Hv]]. unfold fl_crash in Hf'. apply in_map_iff in Hf'.
+    destruct Hf' as [f [<- Hf]]. apply filter_In in Hf. destruct Hf as [Hf _]. simpl in Hv.
+    destruct (f_is (f_dn f) (FSnap i)) eqn:E2; [|contradiction]. apply f_is_eq in E2. destruct Hv as [<-|[]].
+    rewrite Forall_forall in HI. destruct (HI o Ho) as (_ & _ & GD). destruct (GD i (or_intror E)) as (_ & _ & F & _).
+    rewrite Forall_forall in F. split; [apply (F f Hf); auto|].
+    intros FA. unfold FullAt in FA. simpl in FA. rewrite Forall_forall in FA. specialize (FA o Ho E).
+    rewrite Forall_forall in FA. apply FA; auto. }
+  assert (NE : cands <> []).
+  { unfold recorded_dir in HR. simpl in HR. specialize (HR NZ). rewrite Exists_exists in HR. destruct HR as [o [Ho [V D]]].
+    rewrite Forall_forall in HI. destruct (HI o Ho) as (_ & _ & GD). destruct (GD i (or_introl V)) as (Ed & _).
+    rewrite Exists_exists in Ed. destruct Ed as [f [Hf P]]. intro X.
+    assert (I : In (f_dd f) cands).
+    { unfold cands. apply in_flat_map. exists (mkD (d_dn o) (d_dn o) (fl_crash (d_files o))). split.
+      - unfold fs_crash. apply in_map_iff. exists o. split; auto. apply filter_In. split; auto. rewrite D. reflexivity.
+      - simpl. apply d_is_eq in D. rewrite D. apply in_flat_map. exists (mkF (f_dn f) (f_dn f) (f_dd f) (f_dd f)). split.
+        + unfold fl_crash. apply in_map_iff. exists f. split; auto. apply filter_In. split; auto. rewrite P. reflexivity.
+        + simpl. apply f_is_eq in P. rewrite P. left. reflexivity. }
+    rewrite X in I. contradiction. }
+  rewrite read_file_hd. fold cands. destruct cands as [|d ds]; [contradiction|]. exists d. simpl.
+  inversion ALL; subst. tauto.
+Qed.
+
+Lemma crash_full_or_synced : forall st v d i,
+  Good st -> st_rec st = i -> i <> 0 -> (FullAt i st \/ i <= d) ->
+  restart_okb (dstep (mkDS st v d) (DBase OCrash)) = true.
+Proof.
+  intros st v d i G RE NZ H. unfold restart_okb, recorded_file. simpl.
+  destruct st as [l r]. simpl in *. subst r.
+  destruct (read_after_crash (mkS l i) i G eq_refl NZ) as [x (RF & VS & FU)]. simpl in RF.
+  apply N.eqb_neq in NZ. rewrite NZ. simpl. rewrite RF, VS. simpl.
+  destruct H as [H|H].
+  - rewrite (FU H). reflexivity.
+  - apply N.leb_le in H. rewrite H. apply orb_true_r.
+Qed.
+
+Lemma In_firstn : forall {A} k (l : list A) x, In x (firstn k l) -> In x l.
+Proof.
+  induction k as [|k IH]; intros l x H; simpl in H; [contradiction|].
+  destruct l as [|y r]; [contradiction|]. destruct H as [<-|H]; [left; reflexivity|right; auto].
+Qed.
+
+Lemma run_fs_rec : forall ops t, (forall o, In o ops -> exists f, o = OFs f) -> st_rec (run t ops) = st_rec t.
+Proof.
+  induction ops as [|o r IH]; intros t M; [reflexivity|]. rewrite run_cons.
+  destruct (M o (or_introl eq_refl)) as [f ->]. rewrite IH; [|intros; apply M; right; auto].
+  unfold step'. simpl. destruct (fs_step (st_fs t) f); reflexivity.
+Qed.
+
+Lemma shrink_trace : forall s i t tr oc,
+  J s -> do_cmd (fun l => l) s (CShrink i) = (t, tr, oc) ->
+  allowed_run s tr /\ ~ In OCrash tr /\ (forall k, st_rec (run s (firstn k tr)) = st_rec s).
+Proof.
+  intros s i t tr oc HJ H.
+  assert (OK : ord_ok (fun l : list dname => l)) by (intros l; apply Permutation_refl).
+  destruct (cmd_ok _ _ _ _ _ _ OK HJ H) as (A & _ & _). split; auto.
+  cbn [do_cmd] in H.
+  assert (SUB : forall o, In o tr -> In o (shrink_ops i)).
+  { destruct (st_rec s <? i); [inversion H; subst; intros o []|].
+    destruct (read_file (DFinal i) (FSnap i) (st_fs s)); [|inversion H; subst; intros o []].
+    destruct (valid_snap d); [|inversion H; subst; intros o []].
+    destruct (exec s (shrink_ops i)) as [[u tr'] ok] eqn:E. unfold fin in H. apply triple_eq in H. destruct H as (_ & <- & _).
+    destruct (exec_prefix _ _ _ _ _ E) as [rest EQ]. intros o Ho. rewrite EQ. apply in_or_app. left. exact Ho. }
+  assert (MEM : forall o, In o tr -> exists f, o = OFs f).
+  { intros o Ho. apply SUB in Ho. unfold shrink_ops in Ho. simpl in Ho.
+    repeat (destruct Ho as [<-|Ho]; [eexists; reflexivity|]). contradiction. }
+  split.
+  - intro X. destruct (MEM _ X) as [f E]. discriminate.
+  - intros k. apply run_fs_rec. intros o Ho. apply MEM. eapply In_firstn; eauto.
+Qed.
+
+Lemma firstn_map_c : forall {A B} (g : A -> B) k l, firstn k (map g l) = map g (firstn k l).
+Proof. induction k as [|k IH]; intros [|x r]; simpl; auto. rewrite IH. reflexivity. Qed.
+
+Lemma ondisk_recover_restartable_proved : forall s i load k,
+  J (ds_st s) -> st_rec (ds_st s) = i -> i <> 0 ->
+  (FullAt i (ds_st s) \/ i <= ds_smd s) ->
+  (load = false -> i <= ds_smv s) ->
+  let '(_, tr, _) := recover_prog s i load in
+  restart_okb (dstep (drun s (firstn k tr)) (DBase OCrash)) = true.
+Proof.
+  intros [st v d] i load k HJ RE NZ H3 HV. simpl in *. unfold recover_prog. cbn [ds_st].
+  destruct (do_cmd (fun l => l) st (CShrink i)) as [[t shr] oc] eqn:E.
+  destruct (shrink_trace _ _ _ _ _ HJ E) as (A & NC & RR).
+  rewrite recover_tail_order.
+  set (pre := if load then [DSmRecover i] else []).
+  set (s1 := drun (mkDS st v d) pre).
+  assert (S1 : ds_st s1 = st /\ ds_smd s1 = d /\ i <= ds_smv s1).
+  { unfold s1, pre. destruct load; simpl; repeat split; auto. lia. }
+  destruct S1 as (S1a & S1b & S1c).
+  destruct HJ as (G & _ & _).
+  rewrite firstn_app. rewrite drun_app.
+  destruct (k - length pre)%nat as [|k2] eqn:K.
+  - (* the crash precedes Sync *)
+    cbn [firstn]. unfold drun at 1. cbn [fold_left].
+    assert (X : exists v', drun (mkDS st v d) (firstn k pre) = mkDS st v' d).
+    { unfold pre. destruct load; destruct k; simpl; eauto. destruct k; simpl; eauto. }
+    destruct X as [v' ->]. apply crash_full_or_synced with (i := i); auto.
+  - (* Sync is durable: whatever Shrink has done, the state machine is at i *)
+    assert (FP : firstn k pre = pre).
+    { apply firstn_all2. lia. }
+    rewrite FP. fold s1. cbn [firstn]. rewrite firstn_map_c.
+    change (drun s1 (DSmSync :: map DBase (firstn k2 shr))) with (drun (dstep s1 DSmSync) (map DBase (firstn k2 shr))).
+    rewrite drun_base; [|intro X; apply NC; eapply In_firstn; eauto].
+    destruct s1 as [st1 v1 d1]. cbn [ds_st ds_smd ds_smv dstep] in *. subst st1.
+    change (restart_okb (dstep (mkDS (run st (firstn k2 shr)) v1 v1) (DBase OCrash)) = true).
+    apply crash_full_or_synced with (i := i).
+    + apply run_good; auto. apply allowed_run_firstn. exact A.
+    + change (st_rec (run st (firstn k2 shr)) = i). rewrite RR. exact RE.
+    + exact NZ.
+    + right. exact S1c.
+Qed.
